@@ -254,7 +254,7 @@ func ruleC17Ambiguous(c *Ctx) {
 		}
 		_, exists := byName[k]
 		c.R.Check(exists, rule, "FieldByName:"+k, c.pos(call), "names an existing field of Schema", "FieldByName(\""+k+"\"): Schema has no such field; the result is the invalid Value and IsZero/IsNil on it panics or the keyword silently resolves to nothing")
-		for _, br := range fi.Guards(call.Block()) {
+		for _, br := range fi.DomGuards(call.Block()) {
 			cond, pol := br.Cond()
 			if bo, ok := cond.(*ssa.BinOp); ok && bo.Op == token.EQL && pol {
 				for _, pair := range [][2]ssa.Value{{bo.X, bo.Y}, {bo.Y, bo.X}} {
@@ -278,7 +278,7 @@ func ruleC17Ambiguous(c *Ctx) {
 		// the generic lookup must not be reachable when name == this constant
 		if mapLookup != nil {
 			excluded := false
-			for _, br := range fi.Guards(mapLookup.Block()) {
+			for _, br := range fi.DomGuards(mapLookup.Block()) {
 				cond, pol := br.Cond()
 				if bo, ok := cond.(*ssa.BinOp); ok && bo.Op == token.EQL && !pol {
 					for _, pair := range [][2]ssa.Value{{bo.X, bo.Y}, {bo.Y, bo.X}} {
@@ -462,7 +462,7 @@ func ruleC17Escape(c *Ctx) {
 				if callee == nil || !reachesReplacer(c, callee, un.g, users) {
 					return
 				}
-				for _, br := range fi.Guards(call.Block()) {
+				for _, br := range fi.DomGuards(call.Block()) {
 					cond, pol := br.Cond()
 					cc, ok := cond.(*ssa.Call)
 					if !ok || !pol {
@@ -578,7 +578,7 @@ func ruleC17NoWrongTarget(c *Ctx) {
 		if sVal != nil && okVal != nil {
 			if refs := sVal.Referrers(); refs != nil {
 				for _, r := range *refs {
-					for _, br := range fi.Guards(r.Block()) {
+					for _, br := range fi.DomGuards(r.Block()) {
 						cond, pol := br.Cond()
 						if cond == okVal && pol {
 							guarded = true
@@ -686,7 +686,7 @@ func ruleC17NoWrongTarget(c *Ctx) {
 	} else {
 		n := idxCall.Call.Args[1]
 		lower, upper := false, false
-		for _, br := range fi.Guards(idxCall.Block()) {
+		for _, br := range fi.DomGuards(idxCall.Block()) {
 			cond, pol := br.Cond()
 			bo, ok := cond.(*ssa.BinOp)
 			if !ok {
